@@ -471,3 +471,25 @@ Proof.
   - unfold simple_chunks. rewrite simple_chunks_aux_concat. apply str_eqb_refl.
   - apply nonempty_forallb. apply simple_chunks_aux_nonempty.
 Qed.
+
+(* the splitter turns a source line of whitespace only into one blank chunk (none for the empty line):
+   such a line wraps to nothing, hence renders as exactly one empty line (or_blank) *)
+Lemma blank_run_wraps_to_nothing c w : all_blank c = true -> wrap_chunks' [c] w = [] /\ wrap_chunks' [] w = [].
+Proof.
+  intros H. split; [|reflexivity].
+  apply (wrap_chunks_blank c w _ H). apply wrap_chunks_total.
+Qed.
+
+(* ------------------------------------------------------------------ the code before commit 628ec11 (finding F3), for the record:
+   _wrap_words appended '\n' only after sub-lines shorter than the width and popped a trailing '\n' of each source
+   line; write() kept the typewriter's own width wrap on top of it *)
+Fixpoint legacy_join (ls : list str) (w : nat) : str :=
+  match ls with
+  | [] => []
+  | l :: r => l ++ (if length l <? w then [NL] else []) ++ legacy_join r w
+  end.
+Definition legacy_line (ls : list str) (w : nat) : str :=
+  let s := legacy_join ls w in
+  match rev s with c :: before => if (c =? NL)%N then rev before else s | [] => s end.
+Definition legacy_render_text (t : text) (w : nat) : buffer :=
+  fst (typewriter (join_nl (map (fun cs => legacy_line (wrap_chunks' cs w) w) (t_chunks t))) [] 0 0 0 (Some w) false).
